@@ -168,6 +168,7 @@ def check_case(ctx, bp, case, pairs, meta, exhaustive_budget, sampled_cuts):
         ctx.count("unmodellable_result")
         return
     full_snaps = [ev[1] for ev in events if ev[0] == "ok"]
+    full_ok = len(full_snaps) == min(len(readers), len(case.written))
     ctx.cov["evaluations"] += 1
     if any(len(f) > 1 for f in case.frames):
         ctx.seen_nontrivial((tuple(readers), stream))
@@ -237,7 +238,9 @@ def check_case(ctx, bp, case, pairs, meta, exhaustive_budget, sampled_cuts):
         whole = sum(1 for e in ends if e <= k)
         if len(oks) > whole:
             ctx.fail("oracle", f"stream cut at {k}: {len(oks)} loads returned but only {whole} frames are complete", input=case.describe(cut=k))
-        if "ok" in after:
+        # when the uncut run returns every message, an exception on a cut stream can only come from the cut itself:
+        # the stream is then at EOF and every later load must raise as well (a return would be a message made of nothing)
+        if full_ok and "ok" in after:
             ctx.fail("oracle", f"stream cut at {k}: a load returned a message after an earlier load on the same stream had raised", input=case.describe(cut=k))
         if same_classes and len(full_snaps) == len(readers) and len(oks) != min(whole, len(readers)):
             ctx.fail("oracle", f"stream cut at {k}: {whole} complete frames but {len(oks)} loads returned", input=case.describe(cut=k))
